@@ -71,6 +71,7 @@ def main(argv=None):
     args = ap.parse_args(argv)
     prop = args.prop
     tier = "thorough" if args.tier == "thorough" else "quick"
+    os.environ["PYVC_TIER"] = tier  # (contracts may enumerate more shapes in the thorough tier)
     seed = int(os.environ.get("VERIF_SEED", "0") or 0)
     if args.replay:
         return replay_mod.replay_file(args.replay)
@@ -133,12 +134,7 @@ def main(argv=None):
         if z3.is_true(ob.goal):
             results[idx] = ("discharged", "simplify", 0.0, "", None)
             continue
-        try:
-            text = obligation_smt2(env, ob)
-        except Exception as e:  # generation failure -> undecided
-            results[idx] = ("unknown", "none", 0.0, f"smt generation failed: {e!r}", None)
-            continue
-        jobs.append((idx, text))
+        jobs.append((idx, None))  # (the SMT-LIB text is generated by the worker, and only as far as needed)
 
     import threading
 
@@ -149,15 +145,34 @@ def main(argv=None):
     def work(job):
         idx, text = job
         rep, ob = obligations[idx]
+        if ob.meta.get("pc_mark") is not None and ob.clause not in known_clauses:
+            try:
+                with lock:
+                    stext = obligation_smt2(env, ob, sliced=True)
+                rs = solve_text(stext, ob.clause + ".slice", min(budget, 10))
+                if rs.status == "discharged":
+                    return idx, (rs.status, rs.backend, rs.time, rs.detail, rs.file)
+                if rs.file:
+                    try:
+                        os.unlink(rs.file)
+                    except OSError:
+                        pass
+            except Exception:
+                pass
+        try:
+            with lock:
+                text = obligation_smt2(env, ob)
+        except Exception as e:  # generation failure -> undecided
+            return idx, ("unknown", "none", 0.0, f"smt generation failed: {e!r}", None)
         if ob.clause in known_clauses:
             # a recorded open finding: one short attempt, no retries (it is expected not to discharge)
             r = solve_text(text, ob.clause, min(budget, 6))
             return idx, (r.status, r.backend, r.time, r.detail, r.file)
-        if ob.meta.get("pc_mark") is not None and tier != "thorough":
+        if len(text) > 60000:
             try:
                 with lock:
-                    stext = obligation_smt2(env, ob, sliced=True)
-                rs = solve_text(stext, ob.clause + ".slice", min(budget, 5))
+                    stext = obligation_smt2(env, ob, sliced="direct")
+                rs = solve_text(stext, ob.clause + ".direct", min(budget, 10))
                 if rs.status == "discharged":
                     return idx, (rs.status, rs.backend, rs.time, rs.detail, rs.file)
                 if rs.file:
@@ -191,7 +206,7 @@ def main(argv=None):
                 text = text2
         return idx, (r.status, r.backend, r.time, r.detail, r.file)
 
-    with ThreadPoolExecutor(max_workers=8) as ex:
+    with ThreadPoolExecutor(max_workers=int(os.environ.get("PYVC_WORKERS", "12"))) as ex:
         for idx, res in ex.map(work, jobs):
             results[idx] = res
     solver_time = sum(r[2] for r in results.values())
@@ -286,7 +301,11 @@ def main(argv=None):
             except Exception as e:
                 r = {"function": con.target, "error": repr(e), "cases": 0, "failures": []}
             standins.append(r)
-            for fl in r.get("failures", [])[:1]:
+            done_clauses = set()
+            for fl in r.get("failures", []):
+                if fl["clause"] in done_clauses:
+                    continue
+                done_clauses.add(fl["clause"])
                 finding = next((f for f in open_findings if f["clause"] == fl["clause"]), None)
                 if finding is not None:
                     known_hits.append((finding, fl))
